@@ -431,6 +431,14 @@ def rule_loaders(ck):
     o = ck.ob('C11-D6.dispatch', f, tabs[0].value if tabs else 'loader mapping', tabs[0] if tabs else f.node)
     good = dispatch_targets(P, f, 'dat') == {G + 'GriddedForecast.load_ascii'}
     (o.ok("'dat' -> GriddedForecast.load_ascii") if good else o.fail("the 'dat' extension does not map to GriddedForecast.load_ascii"))
+    # the keywords of the caller reach the loader as they are: dropping the ones a signature does not name also drops what a
+    # `**kwargs` loader would have forwarded (swap_latlon, the dates, the name)
+    o = ck.ob('C11-D6.kwargs', f, 'loader(fname, **kwargs) with the caller\'s keywords', f.node)
+    kwp = f.node.args.kwarg.arg if f.node.args.kwarg else None
+    lc = [c for c in all_nodes(f) if isinstance(c, ast.Call) and isinstance(c.func, ast.Name) and c.func.id == 'loader']
+    ok_kw = bool(lc) and kwp is not None and all(any(k.arg is None and isinstance(k.value, ast.Name) and k.value.id == kwp for k in c.keywords) for c in lc) \
+        and not [a_ for a_ in find_assignments(f, kwp)]
+    (o.ok() if ok_kw else o.fail('the loader is not called with the caller\'s **%s unchanged: keywords are filtered or rebuilt on the way' % (kwp or 'kwargs')))
     ck.clause('D5')
     for q in ('csep.utils.readers.quadtree_ascii_loader', 'csep.utils.readers.quadtree_csv_loader'):
         g = P.func(q)
